@@ -626,11 +626,14 @@ structure FcgiFraming where
   /-- cut of the body into STDIN records -/
   stdin : List Piece
 
-/-- a FastCGI request without `FCGI_KEEP_CONN` as a peer (web server) sends it -/
-def encFcgi (fr : FcgiFraming) : Bytes :=
-  encRec Gen.fcgi_begin_request fr.rid (encBeginBody false) fr.padBegin ++
+/-- one FastCGI request as a peer (web server) sends it, followed by whatever comes next on the connection -/
+def encFcgiK (keep : Bool) (fr : FcgiFraming) (rest : Bytes) : Bytes :=
+  encRec Gen.fcgi_begin_request fr.rid (encBeginBody keep) fr.padBegin ++
   (encPieces Gen.fcgi_params fr.rid fr.params ++ (encRec Gen.fcgi_params fr.rid [] fr.padParamsEnd ++
-  (encPieces Gen.fcgi_stdin fr.rid fr.stdin ++ (encRec Gen.fcgi_stdin fr.rid [] fr.padStdinEnd ++ []))))
+  (encPieces Gen.fcgi_stdin fr.rid fr.stdin ++ (encRec Gen.fcgi_stdin fr.rid [] fr.padStdinEnd ++ rest))))
+
+/-- a FastCGI request without `FCGI_KEEP_CONN` -/
+def encFcgi (fr : FcgiFraming) : Bytes := encFcgiK false fr []
 
 /-- well-formed: C strings, name-value block below the 16 KiB accumulation limit, records of legal size
 cut anywhere, `CONTENT_LENGTH` equal to the length of the body sent -/
@@ -672,26 +675,32 @@ theorem encPieces_len (t rid : Nat) (ps : List Piece) : ps.length ≤ (encPieces
     simp only [encPieces, List.flatMap_cons, List.length_append, List.length_cons, encRec, encHdr] at ih ⊢
     omega
 
-/-- **FastCGI round trip** on the stream: whatever the record cuts and paddings, a well-formed request is
-delivered as exactly the peer's environment and body stream. -/
-theorem fcgiFlat_roundtrip (lim : Limits) (hb : 0 < lim.bufSize) (conc : Bytes) (eps : List EncPair) (body : Bytes)
-    (fr : FcgiFraming) (hw : WFFcgi eps body fr) :
-    fcgiFlat lim conc (encFcgi fr) = [(reqOutcome lim (Head.ofEnv (Env.empty.addAll (pairsOf eps))) body).1] := by
+theorem fcgiConn_succ {σ : Type} (R : RecReader σ) (lim : Limits) (conc : Bytes) (fuel : Nat) (st : σ) :
+    fcgiConn R lim conc (fuel + 1) st =
+      (match fcgiHeaders R conc (fuel + 1) st [] with
+       | (out, none, _) => out
+       | (out, some r, st) =>
+         let (o, b) := runRequest lim (fcgiReadSome R) (Head.ofEnv r.env) { st := st, cl := r.cl, reqId := r.requestId }
+         if isApp o && r.keep then out ++ o :: fcgiConn R lim conc fuel b.st
+         else out ++ [o]) := by
+  rfl
+
+/-- one well-formed request at the head of the stream: its outcome, and — after an answered request with
+`FCGI_KEEP_CONN` — the connection continues with the rest of the stream -/
+theorem fcgiConn_one (lim : Limits) (hb : 0 < lim.bufSize) (conc : Bytes) (eps : List EncPair) (body : Bytes)
+    (fr : FcgiFraming) (hw : WFFcgi eps body fr) (keep : Bool) (rest : Bytes) (alloc : Bool) (fuel : Nat)
+    (hf : fr.params.length + 1 < fuel) :
+    ∃ a, fcgiConn flatReader lim conc (fuel + 1) (encFcgiK keep fr rest, alloc) =
+      (if isApp (reqOutcome lim (Head.ofEnv (Env.empty.addAll (pairsOf eps))) body).1 && keep then
+        (reqOutcome lim (Head.ofEnv (Env.empty.addAll (pairsOf eps))) body).1 :: fcgiConn flatReader lim conc fuel (rest, a)
+       else [(reqOutcome lim (Head.ofEnv (Env.empty.addAll (pairsOf eps))) body).1]) := by
   obtain ⟨hr, hpb, hpe, hps, hn, hsize, hwp, hdp, hws, hds, hcl⟩ := hw
   have hown := ownCl_of_head _ _ hcl
-  unfold fcgiFlat
-  have hSlen : fr.params.length + 1 < (encFcgi fr).length + 1 := by
-    have := encPieces_len Gen.fcgi_params fr.rid fr.params
-    simp only [encFcgi, List.length_append, encRec, encHdr, List.length_cons]
-    omega
-  show fcgiConn flatReader lim conc ((encFcgi fr).length + 1 + 1) (encFcgi fr, false) = _
-  unfold fcgiConn
-  obtain ⟨a, ha⟩ := fcgiHeaders_params conc fr.rid fr.padBegin fr.padParamsEnd false eps fr.params
-    (encPieces Gen.fcgi_stdin fr.rid fr.stdin ++ (encRec Gen.fcgi_stdin fr.rid [] fr.padStdinEnd ++ [])) false ((encFcgi fr).length + 1)
-    hr hpb hpe hwp hdp hsize hSlen
-  rw [show (encFcgi fr, false) = (encRec Gen.fcgi_begin_request fr.rid (encBeginBody false) fr.padBegin ++
-      (encPieces Gen.fcgi_params fr.rid fr.params ++ (encRec Gen.fcgi_params fr.rid [] fr.padParamsEnd ++
-      (encPieces Gen.fcgi_stdin fr.rid fr.stdin ++ (encRec Gen.fcgi_stdin fr.rid [] fr.padStdinEnd ++ [])))), false) from rfl]
+  rw [fcgiConn_succ]
+  obtain ⟨a, ha⟩ := fcgiHeaders_params conc fr.rid fr.padBegin fr.padParamsEnd keep eps fr.params
+    (encPieces Gen.fcgi_stdin fr.rid fr.stdin ++ (encRec Gen.fcgi_stdin fr.rid [] fr.padStdinEnd ++ rest)) alloc fuel
+    hr hpb hpe hwp hdp hsize hf
+  unfold encFcgiK
   rw [ha]
   by_cases hz : body.length = 0
   · -- no body: the empty STDIN record belongs to the header phase
@@ -699,50 +708,147 @@ theorem fcgiFlat_roundtrip (lim : Limits) (hb : 0 < lim.bufSize) (conc : Bytes) 
     have hstd : fr.stdin = [] := (piecesData_nil_iff fr.stdin hws).mp (by rw [hds, hbody])
     rw [hstd]
     simp only [encPieces, List.flatMap_nil, List.nil_append]
-    obtain ⟨a2, ha2⟩ := fcgiAfterParams_block0 fr.rid fr.padStdinEnd false eps [] a hr hps hn hsize (by rw [hown, hz])
+    obtain ⟨a2, ha2⟩ := fcgiAfterParams_block0 fr.rid fr.padStdinEnd keep eps rest a hr hps hn hsize (by rw [hown, hz])
     rw [ha2]
-    simp only [List.nil_append, Bool.and_false, Bool.false_eq_true, if_false]
-    -- request layer: nothing to read
-    have hplan : ∀ {σ : Type} (rd : Nat → σ → Except Err (Bytes × σ)) (st : σ),
-        (runRequest lim rd (Head.ofEnv (Env.empty.addAll (pairsOf eps))) st).1 =
-        (reqOutcome lim (Head.ofEnv (Env.empty.addAll (pairsOf eps))) body).1 := by
-      intro σ rd st
+    simp only [List.nil_append]
+    -- request layer: nothing to read, the connection state is untouched
+    have hplan : ∀ (b : FcgiBody (Bytes × Bool)),
+        runRequest lim (fcgiReadSome flatReader) (Head.ofEnv (Env.empty.addAll (pairsOf eps))) b =
+        ((reqOutcome lim (Head.ofEnv (Env.empty.addAll (pairsOf eps))) body).1, b) := by
+      intro b
       unfold runRequest reqOutcome
       cases hp : requestPlan lim (Head.ofEnv (Env.empty.addAll (pairsOf eps))) with
       | done o => rfl
       | read n chunk pre fin =>
         exfalso
         obtain ⟨_, hnpos⟩ := requestPlan_read hb hp
-        -- the plan reads `contentLength.toNat` bytes, which is 0 here
         have := requestPlan_read_n hp
         rw [hcl, hz] at this
         simp at this
         omega
     rw [hplan]
-  · have hfr := fcgiAfterParams_block fr.rid false eps
-      (encPieces Gen.fcgi_stdin fr.rid fr.stdin ++ (encRec Gen.fcgi_stdin fr.rid [] fr.padStdinEnd ++ []), a) hn hsize
+    exact ⟨a2, by simp⟩
+  · have hfr := fcgiAfterParams_block fr.rid keep eps
+      (encPieces Gen.fcgi_stdin fr.rid fr.stdin ++ (encRec Gen.fcgi_stdin fr.rid [] fr.padStdinEnd ++ rest), a) hn hsize
       (by rw [hown]; exact hz)
     rw [hfr]
-    simp only [List.nil_append, Bool.and_false, Bool.false_eq_true, if_false, hown]
-    congr 1
-    unfold runRequest reqOutcome
-    cases hp : requestPlan lim (Head.ofEnv (Env.empty.addAll (pairsOf eps))) with
-    | done o => rfl
-    | read n chunk pre fin =>
-      simp only
-      obtain ⟨hchunk, hnpos⟩ := requestPlan_read hb hp
-      have hn' : n = body.length := by
-        have := requestPlan_read_n hp
+    simp only [List.nil_append, hown]
+    -- request layer
+    have hreq : ∃ b', runRequest lim (fcgiReadSome flatReader) (Head.ofEnv (Env.empty.addAll (pairsOf eps)))
+          ({ st := (encPieces Gen.fcgi_stdin fr.rid fr.stdin ++ (encRec Gen.fcgi_stdin fr.rid [] fr.padStdinEnd ++ rest), a),
+             cl := body.length, reqId := fr.rid } : FcgiBody (Bytes × Bool)) =
+          ((reqOutcome lim (Head.ofEnv (Env.empty.addAll (pairsOf eps))) body).1, b') ∧
+          (isApp (reqOutcome lim (Head.ofEnv (Env.empty.addAll (pairsOf eps))) body).1 = true → b'.st.1 = rest) := by
+      unfold runRequest reqOutcome
+      cases hp : requestPlan lim (Head.ofEnv (Env.empty.addAll (pairsOf eps))) with
+      | done o =>
+        -- decided without reading: an answered request would have had to read its body
+        refine ⟨_, rfl, ?_⟩
+        intro happ
+        exfalso
+        -- `.done (.app …)` only arises for content length 0
+        have := requestPlan_done_app hp happ
         rw [hcl] at this
-        simpa using this
-      subst hn'
-      have hbne : body ≠ [] := by intro h0; rw [h0] at hz; simp at hz
-      have hinv : StdinInv fr.rid fr.padStdinEnd [] body.length
-          ({ st := (encPieces Gen.fcgi_stdin fr.rid fr.stdin ++ (encRec Gen.fcgi_stdin fr.rid [] fr.padStdinEnd ++ []), a),
-             cl := body.length, reqId := fr.rid } : FcgiBody (Bytes × Bool)) body :=
-        ⟨⟨fr.stdin, hws, rfl, by simp [hds]⟩, by simp, by intro _; rfl, by simp, rfl, rfl⟩
-      obtain ⟨b', hl, _⟩ := stdin_loop fr.rid fr.padStdinEnd [] body.length hr hps chunk hchunk (body.length + 1) body [] _ hinv hbne (by omega)
-      rw [hl]
-      simp only [List.nil_append, contentFlat, Nat.le_refl, if_true, List.take_length]
+        omega
+      | read n chunk pre fin =>
+        simp only
+        obtain ⟨hchunk, hnpos⟩ := requestPlan_read hb hp
+        have hn' : n = body.length := by
+          have := requestPlan_read_n hp
+          rw [hcl] at this
+          simpa using this
+        subst hn'
+        have hbne : body ≠ [] := by intro h0; rw [h0] at hz; simp at hz
+        have hinv : StdinInv fr.rid fr.padStdinEnd rest body.length
+            ({ st := (encPieces Gen.fcgi_stdin fr.rid fr.stdin ++ (encRec Gen.fcgi_stdin fr.rid [] fr.padStdinEnd ++ rest), a),
+               cl := body.length, reqId := fr.rid } : FcgiBody (Bytes × Bool)) body :=
+          ⟨⟨fr.stdin, hws, rfl, by simp [hds]⟩, by simp, by intro _; rfl, by simp, rfl, rfl⟩
+        obtain ⟨b', hl, hst'⟩ := stdin_loop fr.rid fr.padStdinEnd rest body.length hr hps chunk hchunk (body.length + 1) body [] _ hinv hbne (by omega)
+        rw [hl]
+        refine ⟨b', ?_, fun _ => hst'⟩
+        simp only [List.nil_append, contentFlat, Nat.le_refl, if_true, List.take_length]
+    obtain ⟨b', hrq, hrest⟩ := hreq
+    rw [hrq]
+    simp only
+    by_cases hk : (isApp (reqOutcome lim (Head.ofEnv (Env.empty.addAll (pairsOf eps))) body).1 && keep) = true
+    · simp only [hk, if_true]
+      have happ : isApp (reqOutcome lim (Head.ofEnv (Env.empty.addAll (pairsOf eps))) body).1 = true := by
+        simp only [Bool.and_eq_true] at hk; exact hk.1
+      refine ⟨b'.st.2, ?_⟩
+      have : b'.st = (rest, b'.st.2) := Prod.ext (hrest happ) rfl
+      rw [← this]
+    · simp only [hk, Bool.false_eq_true, if_false]
+      exact ⟨false, trivial⟩
+
+/-- **FastCGI round trip** on the stream: whatever the record cuts and paddings, a well-formed request is
+delivered as exactly the peer's environment and body stream. -/
+theorem fcgiFlat_roundtrip (lim : Limits) (hb : 0 < lim.bufSize) (conc : Bytes) (eps : List EncPair) (body : Bytes)
+    (fr : FcgiFraming) (hw : WFFcgi eps body fr) :
+    fcgiFlat lim conc (encFcgi fr) = [(reqOutcome lim (Head.ofEnv (Env.empty.addAll (pairsOf eps))) body).1] := by
+  unfold fcgiFlat encFcgi
+  have hlen : fr.params.length + 1 < (encFcgiK false fr []).length + 1 := by
+    have := encPieces_len Gen.fcgi_params fr.rid fr.params
+    simp only [encFcgiK, List.length_append, encRec, encHdr, List.length_cons]
+    omega
+  obtain ⟨a, ha⟩ := fcgiConn_one lim hb conc eps body fr hw false [] false ((encFcgiK false fr []).length + 1) hlen
+  rw [ha]
+  simp
+
+/-! ## keep-alive sequences -/
+
+/-- one request of a kept-alive connection: what the peer means and how it frames it -/
+structure FcgiReqSpec where
+  eps : List EncPair
+  body : Bytes
+  fr : FcgiFraming
+
+/-- requests with `FCGI_KEEP_CONN`, back to back -/
+def encSeq : List FcgiReqSpec → Bytes
+  | [] => []
+  | q :: qs => encFcgiK true q.fr (encSeq qs)
+
+def outcomeOf (lim : Limits) (q : FcgiReqSpec) : Outcome :=
+  (reqOutcome lim (Head.ofEnv (Env.empty.addAll (pairsOf q.eps))) q.body).1
+
+theorem encFcgiK_len (keep : Bool) (fr : FcgiFraming) (rest : Bytes) :
+    fr.params.length + 24 + rest.length ≤ (encFcgiK keep fr rest).length := by
+  have := encPieces_len Gen.fcgi_params fr.rid fr.params
+  simp only [encFcgiK, List.length_append, encRec, encHdr, List.length_cons, List.length_nil]
+  omega
+
+/-- **keep-alive sequence** (FastCGI): well-formed requests sent back to back on one connection are each
+delivered exactly, in order; the connection ends when the peer closes. -/
+theorem fcgiConn_seq (lim : Limits) (hb : 0 < lim.bufSize) (conc : Bytes) :
+    ∀ (qs : List FcgiReqSpec) (alloc : Bool) (fuel : Nat),
+      (∀ q ∈ qs, WFFcgi q.eps q.body q.fr ∧ isApp (outcomeOf lim q) = true) → (encSeq qs).length < fuel →
+      fcgiConn flatReader lim conc fuel (encSeq qs, alloc) = qs.map (outcomeOf lim) ++ [.aborted .eof false false] := by
+  intro qs
+  induction qs with
+  | nil =>
+    intro alloc fuel _ hf
+    cases fuel with
+    | zero => simp [encSeq] at hf
+    | succ f =>
+      rw [fcgiConn_succ]
+      have : fcgiHeaders flatReader conc (f + 1) (([] : Bytes), alloc) [] = ([.aborted .eof false false], none, ([], alloc)) := by
+        unfold fcgiHeaders
+        rw [flat_read]
+        simp [fcgiReadRecordF, Gen.hdrSize]
+      simp only [encSeq, this, List.map_nil, List.nil_append]
+  | cons q qs ih =>
+    intro alloc fuel hq hf
+    obtain ⟨hwq, happ⟩ := hq q (by simp)
+    have hqs : ∀ x ∈ qs, WFFcgi x.eps x.body x.fr ∧ isApp (outcomeOf lim x) = true := fun x hx => hq x (by simp [hx])
+    cases fuel with
+    | zero => omega
+    | succ f =>
+      have hlen := encFcgiK_len true q.fr (encSeq qs)
+      simp only [encSeq] at hf ⊢
+      obtain ⟨a, ha⟩ := fcgiConn_one lim hb conc q.eps q.body q.fr hwq true (encSeq qs) alloc f (by omega)
+      rw [ha]
+      have happ' : isApp (reqOutcome lim (Head.ofEnv (Env.empty.addAll (pairsOf q.eps))) q.body).1 = true := happ
+      simp only [happ', Bool.and_true, if_true]
+      rw [ih a f hqs (by omega)]
+      simp [outcomeOf]
 
 end Cppcms.C01
